@@ -419,6 +419,17 @@ int janet_verify(JanetFuncDef *def) {
         if (def->environments[i] < -1) return 10;
     }
 
+    /* The symbol map (used by debug/stack) names slots of this function, or - with a birth pc of
+     * UINT32_MAX - slots of one of its environments, selected by the death pc */
+    for (i = 0; i < def->symbolmap_length; i++) {
+        JanetSymbolMap jsm = def->symbolmap[i];
+        if (jsm.birth_pc == UINT32_MAX) {
+            if (jsm.death_pc >= (uint32_t) def->environments_length) return 11;
+        } else if (jsm.slot_index >= (uint32_t) sc) {
+            return 11;
+        }
+    }
+
     /* Verify each instruction */
     for (i = 0; i < def->bytecode_length; i++) {
         uint32_t instr = def->bytecode[i];
